@@ -3,7 +3,7 @@
 //!
 //! `jaqmon threads <request.json>` prints one JSON summary. Request:
 //! `{"threads":T,"reps":R,"seed":s,"jitter":0..3,"take":N,"lockstep":bool,
-//!   "compile_during":bool,"share_values":bool,"dump_expected":bool,"defs":"all"|"core","compile_limit":n,
+//!   "compile_during":bool,"share_values":bool,"dump_expected":bool,"defs":"all"|"core","compile_limit":n,"summary_path":file,
 //!   "programs":[{"prog":text,"vars":[[name,wire]..],"inputs":[wire..]}..]}`
 //!
 //! Phases: (1) every program is compiled ONCE; (2) isolated baseline on the main thread,
@@ -540,5 +540,13 @@ pub fn main(args: &[String]) {
         "shared_checked": shared_checked, "shared_changed": shared_changed,
         "sync_values": cfg!(feature = "sync"), "share_values": share_values,
     });
+    // with several Miri seeds in one process, stdout lines of the seeds can interleave:
+    // optionally append the summary to a file with a single write
+    if let Some(p) = req["summary_path"].as_str() {
+        use std::io::Write;
+        if let Ok(mut f) = std::fs::OpenOptions::new().create(true).append(true).open(p) {
+            let _ = f.write_all(format!("{out}\n").as_bytes());
+        }
+    }
     println!("{out}");
 }
